@@ -228,7 +228,27 @@ JAt(site, j) == LET J == IF j = "continue" THEN ContinueS ELSE BreakS
     [] site = "elseOfElif" -> <<If(<<Branch(CmpE("==", Var("i"), IntL("0")), <<Lbl("zero")>>), Branch(CmpE("==", Var("i"), IntL("1")), <<Lbl("one")>>)>>, <<If1(is2, <<J>>), Lbl("ge2")>>)>>
 JumpSites == {CaseOf("C01/jumpsite/" \o f \o "/" \o j \o "/" \o st, JLoop(f, JAt(st, j) \o <<PrintS(<<StrL("body"), Var("i")>>)>>) \o <<Lbl("end")>>)
               : f \in {"for3", "range", "for3call"}, j \in {"continue", "break"}, st \in JSites}
-All == Reeval \cup JumpSites \cup OuterJump \cup TupleCases \cup NotCmp \cup NotOther \cup Arith1 \cup Arith2 \cup ArithVar \cup Arith3 \cup Logic2 \cup LogicNot \cup CmpInt \cup CmpStr \cup CmpBool \cup Mixed \cup StrConcat
+\* every control construct around every kind of simple statement (depth 1 and, for the loop and switch constructs, depth 2): what one construct leaves
+\* behind - flags, counters, temporaries - meets what the statement inside reads and writes; all touched variables are printed afterwards
+LeafKinds == {"define", "assign", "compound", "incdec", "swap", "strappend", "cmpassign", "logicassign", "callvalue", "callstmt", "itoa", "negate", "nestedif", "nestedswitch", "printexpr", "twostmts"}
+LeafOf(k, d) ==
+  CASE k = "define" -> <<Def1("loc" \o ToString(d), Bin("+", Var("g"), IntL("1"))), Print1(Var("loc" \o ToString(d)))>>
+    [] k = "assign" -> <<Asg1("g", Bin("*", Var("g"), IntL("2")))>> [] k = "compound" -> <<Compound("g", "-", IntL("3"))>> [] k = "incdec" -> <<Inc("g"), Dec("h")>>
+    [] k = "swap" -> <<Asg(<<"g", "h">>, <<Var("h"), Var("g")>>)>> [] k = "strappend" -> <<Compound("s", "+", Itoa(Var("g")))>>
+    [] k = "cmpassign" -> <<Asg1("b", CmpE("<", Var("g"), Var("h")))>> [] k = "logicassign" -> <<Asg1("b", Lgc("||", Not(Var("b")), CmpE("==", Var("g"), IntL("0"))))>>
+    [] k = "callvalue" -> <<Asg1("g", CallE("twice", <<Var("g")>>))>> [] k = "callstmt" -> <<ExprS(CallE("note", <<Var("s")>>))>>
+    [] k = "itoa" -> <<Asg1("s", Bin("+", Itoa(Var("h")), Var("s")))>> [] k = "negate" -> <<Asg1("b", Not(Var("b")))>>
+    [] k = "nestedif" -> <<IfElse(CmpE(">", Var("g"), Var("h")), <<Asg1("g", Var("h"))>>, <<Asg1("h", Bin("+", Var("g"), IntL("1")))>>)>>
+    [] k = "nestedswitch" -> <<Switch(Var("h"), <<CaseB(IntL("7"), <<Inc("h")>>), CaseB(IntL("8"), <<Dec("h")>>)>>, <<Inc("g")>>, TRUE)>>
+    [] k = "printexpr" -> <<PrintS(<<Bin("+", Var("g"), Var("h")), Var("b"), Bin("+", Var("s"), StrL("!"))>>)>>
+    [] k = "twostmts" -> <<Inc("g"), Asg1("h", Bin("+", Var("g"), Var("h"))), Compound("s", "+", StrL("."))>>
+LeafPrelude == <<Def(<<"g", "h", "b", "s">>, <<IntL("5"), IntL("7"), BoolL(TRUE), StrL("s")>>), Func("twice", <<Param("n", "int")>>, <<"int">>, <<RetS(<<Bin("*", Var("n"), IntL("2"))>>)>>),
+                 Func("note", <<Param("t", "string")>>, <<>>, <<PrintS(<<StrL("note"), Var("t")>>)>>)>>
+LeafDump == <<PrintS(<<Var("g"), Var("h"), Var("b"), Var("s")>>)>>
+NestLeaf == {CaseOf("C01/nestleaf/" \o c \o "/" \o k, LeafPrelude \o Construct(c, 1, LeafOf(k, 1)) \o LeafDump) : c \in ConstructNames, k \in LeafKinds}
+            \cup {CaseOf("C01/nestleaf2/" \o c1 \o "/" \o c2 \o "/" \o k, LeafPrelude \o Construct(c1, 1, Construct(c2, 2, LeafOf(k, 2))) \o LeafDump)
+                  : c1 \in {"for3", "forcond", "swtag", "for3cont", "elifFT"}, c2 \in {"for3", "forinf", "swless", "swdeffirst", "ifelseF", "for3break"}, k \in (IF Quick THEN {"compound", "swap", "callvalue", "strappend", "nestedswitch"} ELSE LeafKinds)}
+All == NestLeaf \cup Reeval \cup JumpSites \cup OuterJump \cup TupleCases \cup NotCmp \cup NotOther \cup Arith1 \cup Arith2 \cup ArithVar \cup Arith3 \cup Logic2 \cup LogicNot \cup CmpInt \cup CmpStr \cup CmpBool \cup Mixed \cup StrConcat
        \cup Nest1 \cup Nest2 \cup Seq2 \cup Nest3 \cup DefCases \cup CompoundCases \cup IncDecCases \cup PanicAt \cup ItoaCases \cup PrintCases
 ASSUME ndJsonSerialize("fam.ndjson", SetToSeq(All))
 =============================================================================
